@@ -15,7 +15,8 @@ import (
 // attachEmbeddings writes glove.bin / cmd_embeddings.bin for the words and entries of db into a scratch directory and
 // loads them the way the application does (files resolved relative to the working directory). Single-threaded callers
 // only (the working directory is process-wide). flavour: "unit" (unit word vectors), "scaled" (lengths 0.3-7),
-// "non-finite" (a few NaN / +Inf / -Inf components), "huge" (components around 1e38: sums overflow float32).
+// "non-finite" (a few NaN / +Inf / -Inf components), "huge" (components around 1e38: sums overflow float32), "cased" (the
+// vocabulary also holds capitalised and upper-case spellings of some words, with vectors of their own).
 func attachEmbeddings(ctx *Ctx, r *rand.Rand, db *database.Database, flavour string) bool {
 	dir := filepath.Join(ctx.Scratch, fmt.Sprintf("emb-%d", r.Int63()))
 	if os.MkdirAll(dir, 0o755) != nil {
@@ -40,6 +41,17 @@ func attachEmbeddings(ctx *Ctx, r *rand.Rand, db *database.Database, flavour str
 	wv := map[string][]float32{}
 	var wl []string
 	var vl [][]float32
+	if flavour == "cased" {
+		// a vocabulary from a cased model: "Linux" and "LINUX" next to "linux", each with a vector of its own
+		for _, w := range vlib.DBWords(db.Commands) {
+			if r.Intn(3) == 0 && len(w) > 1 {
+				for _, cw := range []string{strings.ToUpper(w[:1]) + w[1:], strings.ToUpper(w)} {
+					wl = append(wl, cw)
+					vl = append(vl, c19Unit(c19Gauss(r, 100), 1))
+				}
+			}
+		}
+	}
 	for _, w := range vlib.DBWords(db.Commands) {
 		scale := 1.0
 		if flavour != "unit" {
